@@ -57,6 +57,8 @@ type Program struct {
 	src       map[string][]byte
 	modsets   map[*ssa.Function]*ModSet
 	heapSorts map[string]string
+	heapKinds map[string]Kind // pointer / interface valued heap arrays (by name)
+	freshCache map[*ssa.Function]*freshSet
 	specErrs  []string
 	globalsWritten map[*ssa.Global]bool
 	implCache map[string][]*ssa.Function
@@ -96,7 +98,7 @@ func LoadProgram(repo string, specDirs []string) (*Program, error) {
 		specs: map[string]*FuncSpec{}, specFuns: map[string]*SpecFun{}, macros: map[string]*SpecMacro{},
 		funcs: map[string]*ssa.Function{}, tags: map[string]int{}, strs: map[string]int{},
 		tables: map[*ssa.Global]*Table{}, notTable: map[*ssa.Global]bool{}, src: map[string][]byte{},
-		modsets: map[*ssa.Function]*ModSet{}, heapSorts: map[string]string{}, implCache: map[string][]*ssa.Function{},
+		modsets: map[*ssa.Function]*ModSet{}, heapSorts: map[string]string{}, heapKinds: map[string]Kind{}, freshCache: map[*ssa.Function]*freshSet{}, implCache: map[string][]*ssa.Function{},
 	}
 	P.fset = prog.Fset
 	for _, sp := range prog.AllPackages() {
@@ -720,7 +722,102 @@ func (P *Program) addLeafNames(ms *ModSet, prefix string, t types.Type, twoD boo
 			srt = "(Array Int (Array Int " + sortOfKind(kinds[i]) + "))"
 		}
 		P.heapSorts[prefix+s] = srt
+		if kinds[i] == KPtr || kinds[i] == KIface {
+			P.heapKinds[prefix+s] = kinds[i]
+		}
 	}
+}
+
+// freshPtrNames: the pointer- / array-valued heap arrays in which a call of fn may leave the address of an object
+// or array allocated during the call.  A function that allocates directly contributes every such array of its
+// inferred write set (its callees may fill in what it allocated); one that does not contributes what its static
+// callees, closures and interface implementations contribute.  Dynamic calls contribute nothing (the objects a
+// function passed as an argument allocates for itself are not tracked; listed as an assumption).
+type freshSet struct {
+	All   bool
+	Names map[string]bool
+}
+
+func (P *Program) isPtrHeapName(n string) bool {
+	if !(strings.HasPrefix(n, "H|") || strings.HasPrefix(n, "M|")) {
+		return false
+	}
+	if strings.HasSuffix(n, "#arr") {
+		return true
+	}
+	_, ok := P.heapKinds[n]
+	return ok
+}
+
+func (P *Program) freshPtrNames(fn *ssa.Function) *freshSet {
+	if v, ok := P.freshCache[fn]; ok {
+		return v
+	}
+	fs := &freshSet{Names: map[string]bool{}}
+	P.freshCache[fn] = fs // recursion: optimistic
+	root := fn
+	for root.Parent() != nil {
+		root = root.Parent()
+	}
+	if fn.Blocks == nil || (root.Pkg != nil && !strings.HasPrefix(root.Pkg.Pkg.Path(), modPath)) {
+		return fs
+	}
+	direct := false
+	var callees []*ssa.Function
+	for _, b := range fn.Blocks {
+		for _, in := range b.Instrs {
+			switch x := in.(type) {
+			case *ssa.Alloc:
+				if !allocIsVariable(x) {
+					direct = true
+				}
+			case *ssa.MakeSlice, *ssa.MakeMap:
+				direct = true
+			case *ssa.Call:
+				cc := x.Common()
+				if bi, ok := cc.Value.(*ssa.Builtin); ok {
+					if bi.Name() == "append" {
+						direct = true
+					}
+					continue
+				}
+				if cc.IsInvoke() {
+					callees = append(callees, P.implementations(cc)...)
+					continue
+				}
+				if callee, ok := cc.Value.(*ssa.Function); ok {
+					if callee != fn {
+						callees = append(callees, callee)
+					}
+					continue
+				}
+				if mc, ok := cc.Value.(*ssa.MakeClosure); ok {
+					callees = append(callees, mc.Fn.(*ssa.Function))
+				}
+			}
+		}
+	}
+	if direct {
+		ms := P.modSetOf(fn)
+		if ms.All {
+			fs.All = true
+		}
+		for n := range ms.Names {
+			if P.isPtrHeapName(n) {
+				fs.Names[n] = true
+			}
+		}
+	}
+	for _, c := range callees {
+		o := P.freshPtrNames(c)
+		if o.All {
+			fs.All = true
+		}
+		for n := range o.Names {
+			fs.Names[n] = true
+		}
+	}
+	return fs
 }
 
 // addAllLeaves: every leaf array of struct type t (recursively).
